@@ -1197,12 +1197,10 @@ theorem StepR.tk {sh th o} (h : StepR sh th o) (hth : ThOK th) : TkEff sh th o :
     refine .turn j false hs hturn rfl rfl rfl rfl rfl ?_ ?_ ?_ ?_
     · intro rid t; simp only [hold, hpc, hj, hs, true_and]
       by_cases h1 : rid = j.reg.rid <;> simp [h1, eq_comm]
-      · intro e; exact h1 e.symm
     · intro rid t; simp [hold]
     · intro rid; simp [prog, hj, hpc, idle]
     · intro rid; simp only [prog, hj, hs, idle, true_and]
       by_cases h1 : rid = j.reg.rid <;> simp [h1, eq_comm]
-      · intro e; exact h1 e.symm
   case turnDead j hpc hj hturn hl =>
     simp only [ThOK, hpc] at hth
     obtain ⟨⟨j', hj', hs⟩, _⟩ := hth
@@ -1210,7 +1208,6 @@ theorem StepR.tk {sh th o} (h : StepR sh th o) (hth : ThOK th) : TkEff sh th o :
     refine .turn j true hs hturn rfl rfl rfl rfl rfl ?_ ?_ ?_ ?_
     · intro rid t; simp only [hold, hpc, hj, hs, true_and]
       by_cases h1 : rid = j.reg.rid <;> simp [h1, eq_comm]
-      · intro e; exact h1 e.symm
     · intro rid t; simp [hold]
     · intro rid; simp [prog, hj, hpc, idle]
     · intro rid; simp [prog, hj, idle]
@@ -1221,12 +1218,156 @@ theorem StepR.tk {sh th o} (h : StepR sh th o) (hth : ThOK th) : TkEff sh th o :
       · intro rid t; simp [hold]
       · intro rid; simp only [prog, hj, hpc, hs, idle, true_and]
         by_cases h1 : rid = j.reg.rid <;> simp [h1, eq_comm]
-        · intro e; exact h1 e.symm
       · intro rid; simp [prog, hj, idle]
     · refine .quiet rfl rfl (by simp [hs]) rfl ?_ ?_
       · intro rid t; simp [hold, hpc]
       · intro rid; simp [prog, hj, hs]
-  all_goals sorry
+  case fin hpc hfr hp =>
+    simp [ThOK, hpc, hfr] at hth
+    refine .quiet rfl rfl rfl rfl ?_ ?_
+    · intro rid t; simp [hold, hpc]
+    · intro rid; simp [prog, hth]
+  case lock r a f fs hpc hfr hfree =>
+    refine .quiet (by simp) (by simp) (by simp) (by simp) ?_ ?_
+    · intro rid t; simp [hold, hpc]
+    · intro rid; simp [prog, idle, hpc]
+  case astartRun j hpc hj hs hl =>
+    refine .quiet (by simp) (by simp) (by simp) (by simp) ?_ ?_
+    · intro rid t; simp [hold, hpc, hj, hs]
+    · intro rid; simp [prog, idle, hpc, hj, hs]
+  all_goals
+    refine .quiet rfl rfl rfl rfl ?_ ?_
+    · intro rid t; simp [hold, *]
+    · intro rid; simp [prog, idle, *]
+
+
+structure TkInv (sh : Shared) (ths : List Thread) (rid : Nat) : Prop where
+  issued : ticketsOf rid sh.issued = List.range (lookupD sh.tickets rid)
+  turns : ticketsOf rid sh.turns = List.range (lookupD sh.serving rid + wsum (prog rid) ths)
+  le : lookupD sh.serving rid + wsum (prog rid) ths ≤ lookupD sh.tickets rid
+  holders : ∀ t, wsum (hold rid t) ths ≤ 1 ∧
+    (1 ≤ wsum (hold rid t) ths → lookupD sh.serving rid + wsum (prog rid) ths ≤ t ∧ t < lookupD sh.tickets rid)
+
+theorem TkInv.step {sh : Shared} {ths : List Thread} {i : Nat} {th : Thread} {o : Out} (hth : ths[i]? = some th)
+    (he : TkEff sh th o) (hi : ∀ rid, TkInv sh ths rid) (rid : Nat) :
+    TkInv o.sh (ths.set i o.th ++ o.new) rid := by
+  have Hs := fun t => wsum_step (hold rid t) o.th o.new hth
+  have Ps := wsum_step (prog rid) o.th o.new hth
+  have Hge := fun t => wsum_ge (hold rid t) hth
+  have Pge := wsum_ge (prog rid) hth
+  obtain ⟨i1, i2, i3, i4⟩ := hi rid
+  cases he with
+  | quiet h1 h2 h3 h4 hh hp =>
+    have eP : wsum (prog rid) (ths.set i o.th ++ o.new) = wsum (prog rid) ths := by have := hp rid; omega
+    have eH : ∀ t, wsum (hold rid t) (ths.set i o.th ++ o.new) = wsum (hold rid t) ths := by
+      intro t; have := hh rid t; have := Hs t; omega
+    exact ⟨by rw [h1, h2]; exact i1, by rw [h3, h4, eP]; exact i2, by rw [h1, h3, eP]; exact i3,
+      fun t => by rw [h1, h3, eP, eH]; exact i4 t⟩
+  | issue r hs h1 h2 h3 h4 hh hp =>
+    have eP : wsum (prog rid) (ths.set i o.th ++ o.new) = wsum (prog rid) ths := by have := hp rid; omega
+    have eH : ∀ t, wsum (hold rid t) (ths.set i o.th ++ o.new) =
+        wsum (hold rid t) ths + if rid = r.rid ∧ t = lookupD sh.tickets r.rid then 1 else 0 := by
+      intro t; have := hh rid t; have := Hs t; omega
+    by_cases hr : rid = r.rid
+    · subst hr
+      have eT : lookupD o.sh.tickets r.rid = lookupD sh.tickets r.rid + 1 := by rw [h1, lookupD_setKV]; simp
+      refine ⟨?_, by rw [h3, h4, eP]; exact i2, by rw [eT, h3, eP]; omega, ?_⟩
+      · rw [h2, ticketsOf_append, eT, List.range_succ, i1]; simp
+      · intro t
+        rw [eT, h3, eP, eH]
+        have := i4 t
+        by_cases ht : t = lookupD sh.tickets r.rid
+        · simp only [ht, and_self, if_true]
+          subst ht
+          omega
+        · simp only [ht, and_false, if_false]
+          omega
+    · have eT : lookupD o.sh.tickets rid = lookupD sh.tickets rid := by rw [h1, lookupD_setKV]; simp [hr]
+      have hr' : ¬ r.rid = rid := fun e => hr e.symm
+      refine ⟨?_, by rw [h3, h4, eP]; exact i2, by rw [eT, h3, eP]; exact i3, ?_⟩
+      · rw [h2, ticketsOf_append, eT, i1]; simp [hr']
+      · intro t
+        rw [eT, h3, eP, eH]; simp only [hr, false_and, if_false]; exact i4 t
+  | turn j dead hs hturn h1 h2 h3 h4 hnew hh hh' hp hp' =>
+    rw [hnew] at Hs Ps ⊢
+    simp only [wsum_nil, Nat.add_zero, List.append_nil] at Hs Ps ⊢
+    have eH : ∀ t, wsum (hold rid t) (ths.set i o.th) + (if rid = j.reg.rid ∧ t = j.ticket then 1 else 0) =
+        wsum (hold rid t) ths := by
+      intro t; have := Hs t; rw [hh, hh'] at this; omega
+    have eP : wsum (prog rid) (ths.set i o.th) =
+        wsum (prog rid) ths + (if dead then 0 else if rid = j.reg.rid then 1 else 0) := by
+      rw [hp, hp'] at Ps; omega
+    by_cases hr : rid = j.reg.rid
+    · subst hr
+      have hge := Hge j.ticket
+      rw [hh] at hge
+      simp only [and_self, if_true] at hge
+      have h5 := (i4 j.ticket).2 hge
+      have eS : lookupD o.sh.serving j.reg.rid + wsum (prog j.reg.rid) (ths.set i o.th) =
+          lookupD sh.serving j.reg.rid + 1 := by
+        rw [eP, h3]
+        cases dead
+        · simp; omega
+        · simp [lookupD_setKV]; omega
+      refine ⟨by rw [h1, h2]; exact i1, ?_, by rw [eS, h1]; omega, ?_⟩
+      · rw [eS, h4, ticketsOf_append, i2, List.range_succ]
+        have : wsum (prog j.reg.rid) ths = 0 := by omega
+        simp [this, hturn]
+      · intro t
+        rw [eS, h1]
+        have := i4 t
+        have := eH t
+        by_cases ht : t = j.ticket
+        · simp only [ht, and_self, if_true] at this
+          subst ht
+          omega
+        · simp only [ht, and_false, if_false] at this
+          omega
+    · have eS : lookupD o.sh.serving rid = lookupD sh.serving rid := by
+        rw [h3]; cases dead <;> simp [lookupD_setKV, hr]
+      have eP' : wsum (prog rid) (ths.set i o.th) = wsum (prog rid) ths := by
+        rw [eP]; cases dead <;> simp [hr]
+      have eH' : ∀ t, wsum (hold rid t) (ths.set i o.th) = wsum (hold rid t) ths := by
+        intro t; have := eH t; simp only [hr, false_and, if_false] at this; omega
+      have hr' : ¬ j.reg.rid = rid := fun e => hr e.symm
+      refine ⟨by rw [h1, h2]; exact i1, ?_, by rw [eS, eP', h1]; exact i3, fun t => by rw [eS, eP', eH', h1]; exact i4 t⟩
+      rw [eS, eP', h4, ticketsOf_append, i2]; simp [hr']
+  | release j hs h1 h2 h3 h4 hnew hh hh' hp hp' =>
+    rw [hnew] at Hs Ps ⊢
+    simp only [wsum_nil, Nat.add_zero, List.append_nil] at Hs Ps ⊢
+    have eH : ∀ t, wsum (hold rid t) (ths.set i o.th) = wsum (hold rid t) ths := by
+      intro t; have := Hs t; rw [hh, hh'] at this; omega
+    have eP : wsum (prog rid) (ths.set i o.th) + (if rid = j.reg.rid then 1 else 0) = wsum (prog rid) ths := by
+      rw [hp, hp'] at Ps; omega
+    have eS : lookupD o.sh.serving rid + wsum (prog rid) (ths.set i o.th) =
+        lookupD sh.serving rid + wsum (prog rid) ths := by
+      rw [h3, lookupD_setKV]
+      by_cases hr : rid = j.reg.rid
+      · subst hr; simp only [if_true] at eP ⊢; omega
+      · simp only [hr, if_false] at eP ⊢; omega
+    exact ⟨by rw [h1, h2]; exact i1, by rw [eS, h4]; exact i2, by rw [eS, h1]; exact i3,
+      fun t => by rw [eS, eH, h1]; exact i4 t⟩
+
+
+theorem wsum_init (w : Thread → Nat) (progs : List (List Op)) (h : ∀ p, w { prog := p } = 0) :
+    wsum w (initSys progs).ths = 0 := by
+  simp only [initSys]
+  induction progs with
+  | nil => rfl
+  | cons p ps ih => simpa [h] using ih
+
+theorem tk_reachable {progs : List (List Op)} : ∀ s, Reachable progs s → ∀ rid, TkInv s.sh s.ths rid := by
+  apply reach_ind
+  · intro rid
+    have hp : wsum (prog rid) (initSys progs).ths = 0 := wsum_init _ _ (fun p => by simp [prog])
+    have hh : ∀ t, wsum (hold rid t) (initSys progs).ths = 0 := fun t => wsum_init _ _ (fun p => by simp [hold])
+    refine ⟨?_, ?_, ?_, ?_⟩
+    · simp [initSys, ticketsOf, lookupD]
+    · rw [hp]; simp [initSys, ticketsOf, lookupD]
+    · rw [hp]; simp [initSys, lookupD]
+    · intro t; rw [hh]; simp
+  · intro s i th o hr hi hth hR rid
+    exact TkInv.step hth (hR.tk (thOK_reachable s hr th (List.mem_of_getElem? hth))) hi rid
 
 end Inv
 
@@ -1350,13 +1491,16 @@ theorem seq_mutex (progs : List (List Op)) (s : Sys) (h : Reachable progs s) (ri
 /-- Async+Sequential: tickets are handed out 0,1,2,… in dispatch order … -/
 theorem tickets_in_dispatch_order (progs : List (List Op)) (s : Sys) (h : Reachable progs s) (rid : Nat) :
     ticketsOf rid s.sh.issued = List.range (ticketsOf rid s.sh.issued).length := by
-  sorry
+  have h1 := (tk_reachable s h rid).issued
+  rw [h1, List.length_range]
 
 /-- … and turns are taken 0,1,2,… in that same order: the k-th event dispatched to the
 registration is the k-th one processed (publish order is preserved) -/
 theorem turns_in_ticket_order (progs : List (List Op)) (s : Sys) (h : Reachable progs s) (rid : Nat) :
     ticketsOf rid s.sh.turns = List.range (ticketsOf rid s.sh.turns).length ∧
     (ticketsOf rid s.sh.turns).length ≤ (ticketsOf rid s.sh.issued).length := by
-  sorry
+  obtain ⟨h1, h2, h3, _⟩ := tk_reachable s h rid
+  rw [h1, h2, List.length_range, List.length_range]
+  exact ⟨rfl, h3⟩
 
 end Ebu.Conc
